@@ -1406,14 +1406,14 @@ def main(tier, seed, replay=None):
         scripted = []
         if tier == 'quick':
             combos = [(s_, 'FALSE', inv, 2, 1, 50) for s_ in ('FALSE', 'TRUE') for inv in ('HistoryOK', 'QuietOK')] + \
-                     [('FALSE', 'FALSE', inv, 2, 1, 50) for inv in ('NoThreadDies', 'ReconnectOK')] + \
+                     [('FALSE', 'FALSE', 'NoThreadDies+ReconnectOK', 2, 1, 50)] + \
                      [(s_, 'TRUE', 'HistoryOK', 2, 1, 30) for s_ in ('FALSE', 'TRUE')]
         else:
             combos = [(s_, c_, inv, 2, 1, 60 if c_ == 'FALSE' else 36) for s_ in ('FALSE', 'TRUE') for c_ in ('FALSE', 'TRUE')
-                      for inv in ('HistoryOK', 'QuietOK', 'NoThreadDies', 'ReconnectOK')] + \
+                      for inv in ('HistoryOK', 'QuietOK', 'NoThreadDies+ReconnectOK')] + \
                      [('FALSE', 'FALSE', inv, 3, 2, 50) for inv in ('HistoryOK', 'QuietOK')]
         f_asis = [small.submit(search, 'asis%d' % i, depth=dp, UseSync=s_, Closer=c_, NAtt=natt, MaxFaults=mf,
-                               Defects=_tla_set(defects), INVARIANTS=[inv])
+                               Defects=_tla_set(defects), INVARIANTS=inv.split('+'))
                   for i, (s_, c_, inv, natt, mf, dp) in enumerate(combos)]
         #    the seven repairs of /repo, each reverted: the as-is spec with the pre-fix switch(es) back on gives the
         #    schedule, the real code with the fix reverted IN MEMORY is driven along it (step 4 judges the traces)
